@@ -128,7 +128,7 @@ func execute(res *vh.Result, tr *vh.Trace, rs runSpec) runOut {
 			}
 		}
 		ev := map[string]any{"e": "s", "o": off, "op": int(op), "r": refs, "w": o.Walked, "c": o.Cyc, "b": o.Bits,
-			"z": o.Size, "i": o.IDepth, "t": o.TDepth, "g": limbs(v.GasConsumed()), "k": onb, "tt": tt}
+			"z": o.Size, "i": o.IDepth, "t": o.TDepth, "g": limbs(v.GasConsumed()), "k": onb, "tt": tt, "st": v.State().String()}
 		tr.Emit(ev)
 		res.Count([]any{rs.Src[:3], int(lastOp), int(op), refs - o.Walked, o.Cyc, o.IDepth, o.TDepth})
 		if nextM < len(rs.Marks) && rs.Marks[nextM].Off == off {
